@@ -306,7 +306,10 @@ class SVGLexicalParser:
             self.pos = match.end()
             if kind == "SKIP":
                 continue
-            return float(match.group())
+            value = float(match.group())
+            if value - value != 0:
+                raise ValueError("number out of range")  # overflowed to infinity
+            return value
         return None
 
     def _flag(self):
@@ -350,10 +353,10 @@ class SVGLexicalParser:
             if cmd is None:
                 return
             elif cmd == "z" or cmd == "Z":
-                if self._more():
-                    raise ValueError
                 self.parser.closed(relative=cmd.islower())
                 self.inline_close = None
+                if self._more():
+                    raise ValueError  # close takes no operands; the close itself was valid.
                 continue
             elif cmd == "m":
                 if not self._more():
